@@ -109,7 +109,7 @@ impl Copyright {
 
     /// Read copyright file from a string, allowing syntax errors
     pub fn from_str_relaxed(s: &str) -> Result<(Self, Vec<String>), Error> {
-        if !s.starts_with("Format:") {
+        if !crate::is_machine_readable(s) {
             return Err(Error::NotMachineReadable);
         }
 
@@ -187,7 +187,7 @@ impl std::str::FromStr for Copyright {
     type Err = Error;
 
     fn from_str(s: &str) -> Result<Self, Self::Err> {
-        if !s.starts_with("Format:") {
+        if !crate::is_machine_readable(s) {
             return Err(Error::NotMachineReadable);
         }
         Ok(Self(Deb822::from_str(s)?))
